@@ -120,7 +120,7 @@ CHECKS = {
         technique="exhaustive enumeration of async programs on the real macro; compile-time witnesses, runtime Send probe, negative compile probes, structural view",
         ref="DESIGN.md §3 C12"),
     "C13": dict(
-        text="Every (input mode, requested visibility, item visibility) program - fn: 10 requested (incl. pub(self), pub(in self), pub(in super), pub(in super::super), pub(in super::super::super), pub(in crate::path)) x 3 fn visibilities, and exporting variants; mod: 7 requested (incl. pub(self), pub(super), pub(in super::super)) x module visibility "
+        text="Every (input mode, requested visibility, item visibility) program - fn: 10 requested (incl. pub(self), pub(in self), pub(in super), pub(in super::super), pub(in super::super::super), pub(in crate::path)) x 3 fn visibilities, and exporting variants; mod: 9 requested (incl. pub(self), pub(super), pub(in self), pub(in super), pub(in super::super)) x module visibility "
              "x fn visibility, through the re-export and through the module; trait: 5 trait visibilities x static/ref delegation target x attribute-side "
              "visibility, for the delegation target trait and for the selector trait - x 5 probe scopes (defining scope, parent, grandparent, crate root, a second crate). One probe per unit: it must compile exactly "
              "where Rust's visibility lattice allows it and be rejected with a privacy error elsewhere; the visibility tokens of the emitted trait and "
